@@ -104,7 +104,7 @@ def rn1(prog, rr):
                     continue            # locking a field after it has been solved / drawn
                 if fn is dr and isinstance(a0, ast.Constant) and a0.value is True and isinstance(lvl, ast.Constant) and lvl.value == 0:
                     continue            # the root call
-                if a0 is not None and norm(a0) == "self.is_used_rand" and isinstance(lvl, ast.Constant) and isinstance(lvl.value, int) and lvl.value >= 1:
+                if a0 is not None and norm(a0) in ("self.is_used_rand", "self.size.is_used_rand") and isinstance(lvl, ast.Constant) and isinstance(lvl.value, int) and lvl.value >= 1:
                     continue            # propagation from a container to a child it creates: the child is random only if the container is used-random
                                         # AND the child is declared random with rand_mode on (level >= 1 switches the root clause off)
                 rr.finding(fn, n, _q(fn), "RN1: %s forces used-as-random with %s outside the root call of do_randomize: the field is treated as "
